@@ -81,6 +81,11 @@ func runHist(ch *simrt.Chooser, opt Options) RunResult {
 
 	h := &Hist{prop: opt.Prop, byPtr: map[uintptr]*Node{}, rel: map[[2]int]string{}, counters: res.Counters,
 		derivedOK: opt.Prop == "C19", maxSlots: 16, maxNodes: 32}
+	if ch.Draw("size-class", 5) == 0 {
+		// a fifth of the runs may grow containers well past the small-capacity steps (1, 2, 4, 8, 16, 32)
+		h.maxSlots, h.big = 48, true
+		res.Counters["size-class:big"]++
+	}
 	out := simrt.Run(ch, cfg, func(s *simrt.Sim) {
 		h.d = s
 		for i := 0; i < steps && !h.dead; i++ {
